@@ -18,7 +18,7 @@ DAY = 86400 * 10**9
 def shards(tier, seed):
     from pyoda_time import CalendarSystem
     n = 30 if tier == "quick" else 500
-    return [{"name": f"cal:{cid}", "cal": cid, "n": n} for cid in CalendarSystem.ids]
+    return [{"name": f"cal:{cid}", "cal": cid, "n": n * (4 if cid in ("ISO", "Gregorian") else 1)} for cid in CalendarSystem.ids]
 
 
 def run(ctx, shard):
@@ -81,6 +81,11 @@ def run(ctx, shard):
         os_ = rng.choice(offs); o = Offset.from_seconds(os_)
         # choose the local day first so that range ends are hit, then derive the instant
         d = rng.choice([lo + 1, hi - 1, lo + 2, hi - 2, rng.randint(lo + 2, hi - 2), rng.randint(lo + 2, hi - 2)])
+        if cid in ("ISO", "Gregorian") and it % 3 == 1:
+            # the ends of the 1900-2100 window that the day-number conversion treats specially, their leap-day neighbourhoods, and the years either side
+            import datetime as _dt
+            d = rng.choice([_dt.date(y_, m_, d_).toordinal() - 719163 + rng.randint(-1, 1) for (y_, m_, d_) in
+                            ((1900, 1, 1), (1900, 2, 28), (1900, 3, 1), (1900, 12, 31), (1899, 12, 31), (2000, 2, 29), (2100, 1, 1), (2100, 2, 28), (2100, 3, 1), (2100, 6, 15), (2100, 12, 31), (2101, 1, 1), (2099, 12, 31))])
         t = rng.choice([0, 1, DAY - 1, rng.randrange(DAY), rng.randrange(86400) * 10**9, rng.randrange(24) * 3600 * 10**9, (-os_ * 10**9) % DAY, (-os_ * 10**9 - 1) % DAY, (os_ * 10**9) % DAY, (os_ * 10**9 - 1) % DAY, (os_ * 10**9 + 1) % DAY])   # incl. local times whose instant is exactly a UTC midnight
         n = d * DAY + t - os_ * 10**9
         if not IMIN + 2 * DAY <= n <= IMAX - 2 * DAY:
@@ -116,6 +121,21 @@ def run(ctx, shard):
         ctx.count("offset_date_time_parts"); ctx.ev()
         od = odt.to_offset_date(); ot = odt.to_offset_time()
         in_step(odt, "Instant.with_offset", case); in_step(od, "to_offset_date", case); in_step(ot, "to_offset_time", case)
+        if cid == "ISO":
+            # the spellings that take no calendar (and therefore go from the day number straight to an ISO date) give the same value
+            try:
+                routes = [("Instant.with_offset(o)", i.with_offset(o)), ("Instant.in_utc().to_offset_date_time().with_offset(o)", i.in_utc().to_offset_date_time().with_offset(o)),
+                          ("Instant.in_zone(fixed)", i.in_zone(DateTimeZone.for_offset(o)).to_offset_date_time()),
+                          ("ZonedDateTime(instant, zone)", ZonedDateTime(instant=i, zone=DateTimeZone.for_offset(o)).to_offset_date_time())]
+                for nm, v2 in routes:
+                    ctx.ev(); ctx.count("default_calendar_routes")
+                    if v2 != odt or local_of(v2.local_date_time) != L or gen.ymd(v2.date) != exp_ymd:
+                        V(f"default-calendar-route:{nm.split('(')[0]}", f"{nm} gives local {local_of(v2.local_date_time)} ({gen.ymd(v2.date)}); with the ISO calendar named explicitly the same instant and offset give {L} ({exp_ymd})", case)
+                u_ = i.in_utc()
+                if local_of(u_.local_date_time) != n or u_.offset.seconds != 0:
+                    V("default-calendar-route:in_utc", f"Instant({n}).in_utc() has local {local_of(u_.local_date_time)}", case)
+            except Exception as ex:  # noqa: BLE001
+                ctx.exc(ex); V(f"default-calendar-route-raised:{exc_key(ex)}", f"a calendar-less route raised {ex!r}", case, repr(ex))
         if od.date != odt.date or od.offset != o or od.calendar is not cal or ot.offset != o or ot.nanosecond_of_day != et or ot.time_of_day != odt.time_of_day:
             V("to_offset_date-time", "to_offset_date/to_offset_time lost a component", case)
         if od.at(odt.time_of_day) != odt or ot.on(odt.date) != odt:
